@@ -25,32 +25,51 @@ def batchIssuance (txs : List Tx) (d : Denom) : Nat := (txs.map fun tx => txIssu
     most the declared issuance. -/
 theorem C01_apply (env : Env) (s s' : State) (txs : List Tx) (fb : Header)
     (h : applyBatch env s txs fb = .ok s') (hk : (s.coins.coins.map (·.1)).Nodup) (d : Denom) :
-    supply s' d ≤ supply s d + batchIssuance txs d := by
-  sorry
+    supply s' d ≤ supply s d + batchIssuance txs d :=
+  supply_applyBatch env s s' txs fb h hk d
 
 /-- in particular a batch without faucet, new-token and ERG-mint transactions creates nothing at all -/
 theorem C01_apply_closed (env : Env) (s s' : State) (txs : List Tx) (fb : Header)
     (h : applyBatch env s txs fb = .ok s') (hk : (s.coins.coins.map (·.1)).Nodup)
     (hc : ∀ tx ∈ txs, tx.kind ≠ .faucet ∧ tx.kind ≠ .doscMint ∧ ∀ o ∈ tx.outputs, o.denom ≠ .newCustom)
     (d : Denom) : supply s' d ≤ supply s d := by
-  sorry
+  have hz : batchIssuance txs d = 0 := by
+    apply sum_map_eq_zero
+    intro tx htx
+    obtain ⟨h1, h2, h3⟩ := hc tx htx
+    have hf : (tx.outputs.filter fun o => o.denom = .newCustom ∧ d = .custom tx.hash) = [] := by
+      rw [List.filter_eq_nil_iff]
+      intro o ho
+      have := h3 o ho
+      simp [this]
+    have hm : ¬ (tx.kind = .doscMint ∧ d = .erg) := fun hh => h2 hh.1
+    simp only [txIssuance, if_neg h1, hf, if_neg hm]
+    rfl
+  have := C01_apply env s s' txs fb h hk d
+  omega
 
 /-- per-transaction balance, the fact conservation rests on: a validated non-faucet transaction's outputs of a
     denomination (plus the fee for MEL) equal its inputs of that denomination, for every denomination it outputs
     other than new tokens and minted ERG -/
 theorem C01_tx_balanced (kind : TxKind) (inCoins outCoins : AList Denom Nat) (hk : kind ≠ .faucet)
     (h : checkBalanced kind inCoins outCoins = .ok ()) (d : Denom) (v : Nat) (hv : (d, v) ∈ outCoins)
-    (hd : d ≠ .newCustom) (he : ¬ (kind = .doscMint ∧ d = .erg)) : inCoins.get d = some v := by
-  sorry
+    (hd : d ≠ .newCustom) (he : ¬ (kind = .doscMint ∧ d = .erg)) : inCoins.get d = some v :=
+  checkBalanced_ok hk h d v hv hd he
 
 /-- opening the next block changes no total -/
 theorem C01_next (s : State) (hdr : Header) (d : Denom) :
     supply { s with history := s.history.set s.height hdr, height := s.height + 1,
                     stakes := s.stakes.unlockOld ((s.height + 1) / STAKE_EPOCH), txs := [] } d = supply s d := by
-  sorry
+  rfl
 
 /-- non-vacuity: a one-coin state and a transfer -/
 example : coinsTotal { coins := [(⟨[1], 0⟩, ⟨⟨[7], 5, .mel, []⟩, 0⟩), (⟨[2], 0⟩, ⟨⟨[7], 6, .sym, []⟩, 0⟩)], counts := [] } .mel = 5 := by
   decide
 
 end Mel
+
+#print axioms Mel.C01_apply
+#print axioms Mel.C01_apply_closed
+#print axioms Mel.C01_tx_balanced
+#print axioms Mel.C01_next
+
